@@ -194,7 +194,7 @@ def part_seeds(only=None):
             if a.returncode != 0:
                 say(False, f'seed {s}: patch does not apply: {a.stderr[:200]}')
                 continue
-            env = dict(os.environ, VERIF_REPO=wt)
+            env = dict(os.environ, VERIF_REPO=wt, VERIF_EVIDENCE_DIR=os.path.join(d, 'evidence'))
             r = subprocess.run(['/venv/bin/python', os.path.join(HERE, 'check.py'), meta['breaks_property'], '--tier', 'quick'],
                                cwd=VERIF, env=env, capture_output=True, text=True)
             nviol = r.stdout.count('VIOLATION property=' + meta['breaks_property'])
@@ -202,8 +202,6 @@ def part_seeds(only=None):
         finally:
             subprocess.run(['git', '-C', lib.REPO, 'worktree', 'remove', '--force', os.path.join(d, 'wt')], capture_output=True)
             shutil.rmtree(d, ignore_errors=True)
-    # evidence files were rewritten by runs against modified copies: restore them from git
-    subprocess.run(['git', '-C', VERIF, 'checkout', '--', 'evidence'], capture_output=True)
 
 
 if __name__ == '__main__':
